@@ -240,6 +240,8 @@ func runVolumes(c *vt.Ctx, steps []string) *vt.Deviation {
 	win := memfs.NewWithOptions(&memfs.Options{OSType: avfs.OsWindows})
 	lin := memfs.NewWithOptions(&memfs.Options{OSType: avfs.OsLinux})
 	model := map[string]bool{"C:": true}
+	linked := map[string]string{} // volume -> file on C: that has a second name on the volume
+	dead := map[string]bool{}     // ... whose C: side is gone
 	mk := func(step, detail string) *vt.Deviation {
 		d := vt.Dev("prop", "C17", "fs", "MemFS", "clause", "volumes", "op", strings.SplitN(step, ":", 2)[0])
 		d.Detail = fmt.Sprintf("after %v: %s", steps, detail)
@@ -277,6 +279,14 @@ func runVolumes(c *vt.Ctx, steps []string) *vt.Deviation {
 				if err := win.WriteFile(vol+`\file`, []byte(vol), 0o644); err != nil {
 					return mk(st, fmt.Sprintf("cannot create a file on the new volume %s: %v", vol, err))
 				}
+				// ... and, when the emulation allows it, a second name on that volume for a file of C:
+				// (deleting the volume must take that name away like any removal does)
+				keep := `C:\keep-` + strings.Trim(strings.ReplaceAll(vol, `\`, "-"), ":-")
+				if err := win.WriteFile(keep, []byte("k"), 0o644); err == nil && model["C:"] && vol != "C:" {
+					if err := win.Link(keep, vol+`\hardlink`); err == nil {
+						linked[vol] = keep
+					}
+				}
 			}
 			if err := lin.VolumeAdd(name); !errors.Is(err, avfs.ErrVolumeWindows) {
 				return mk(st, fmt.Sprintf("Linux-typed VolumeAdd = %v, want ErrVolumeWindows", err))
@@ -295,6 +305,23 @@ func runVolumes(c *vt.Ctx, steps []string) *vt.Deviation {
 				delete(model, vol)
 				if _, err := win.Stat(vol + `\file`); err == nil {
 					return mk(st, "a file of the deleted volume is still there")
+				}
+				if vol == "C:" {
+					for v := range linked {
+						dead[v] = true // the files on C: went with it; their other names stay where they are
+					}
+				}
+				keep, wasDead := linked[vol], dead[vol]
+				delete(linked, vol)
+				delete(dead, vol)
+				if keep != "" && !wasDead {
+					fi, err := win.Stat(keep)
+					if err != nil {
+						return mk(st, fmt.Sprintf("the file %s on C: disappeared with the volume %s: %v", keep, vol, err))
+					}
+					if n := win.ToSysStat(fi).Nlink(); n != 1 {
+						return mk(st, fmt.Sprintf("after VolumeDelete(%q) the file %s, whose other name was on that volume, has link count %d, want 1", name, keep, n))
+					}
 				}
 			}
 			if err := lin.VolumeDelete(name); !errors.Is(err, avfs.ErrVolumeWindows) {
@@ -323,8 +350,12 @@ func runVolumes(c *vt.Ctx, steps []string) *vt.Deviation {
 				return mk(st, fmt.Sprintf("file on volume %s: %q %v", v, b, err))
 			}
 			// a volume has its own root: exactly what was put there
-			if es, err := win.ReadDir(v + `\`); err != nil || len(es) != 1 || es[0].Name() != "file" {
-				return mk(st, fmt.Sprintf("ReadDir of the root of volume %s: %v %v, want [file]", v, es, err))
+			want := 1
+			if linked[v] != "" {
+				want = 2
+			}
+			if es, err := win.ReadDir(v + `\`); err != nil || len(es) != want || es[0].Name() != "file" {
+				return mk(st, fmt.Sprintf("ReadDir of the root of volume %s: %v %v, want [file] (+ hardlink)", v, es, err))
 			}
 		}
 		// a volume that does not exist cannot be reached by any path: Windows "path not found",
